@@ -1,5 +1,6 @@
 """User classes of the value grammar: single and multiple inheritance, container subclasses, tripwire-free."""
 import collections
+import typing as _typing
 
 
 class A:
@@ -96,5 +97,86 @@ class WithMethods:
         return 3
 
 
-PLAIN = [A, B, C, D, E, F, P, Q_, X, Y, Z, Outer, Outer.Inner]
+# --- a Protocol that is not runtime-checkable among the bases: issubclass(_, Drawable) raises TypeError
+class Drawable(_typing.Protocol):
+    def draw(self):
+        ...
+
+
+class Shape:
+    pass
+
+
+class Circle(Shape, Drawable):
+    def draw(self):
+        return 1
+
+
+class Square(Shape, Drawable):
+    def draw(self):
+        return 2
+
+
+class Line(Shape):
+    pass
+
+
+class Arc(Shape):
+    pass
+
+
+class Dot(Shape):
+    pass
+
+
+class Blob(Shape):
+    pass
+
+
+class Ring(Circle):
+    pass
+
+
+# --- ordinary classes that merely share their names with typing constructs
+class List:
+    pass
+
+
+class Set:
+    pass
+
+
+class Tuple:
+    pass
+
+
+class Union:
+    pass
+
+
+class Generator:
+    pass
+
+
+class TypedDict:
+    pass
+
+
+class Iterator(Union):
+    pass
+
+
+# --- a class whose class object is falsy (a registry-like metaclass with __len__ == 0)
+class _EmptyMeta(type):
+    def __len__(cls):
+        return 0
+
+
+class Falsy(metaclass=_EmptyMeta):
+    pass
+
+
+SHAPES = [Shape, Circle, Square, Line, Arc, Dot, Blob, Ring]
+NAME_CLASH = [List, Set, Tuple, Union, Generator, TypedDict, Iterator]
+PLAIN = [A, B, C, D, E, F, P, Q_, X, Y, Z, Outer, Outer.Inner] + SHAPES + NAME_CLASH + [Falsy]
 CONTAINER_SUBS = [MyList, MySet, MyTuple, MyDict, MyDefaultDict, MyStr, MyInt]
